@@ -140,7 +140,8 @@ TStep ==
            cont == IsComposed(heap[src].n)
            p    == PathOf(heap, oroot, src)[2]
        IN IF cont /\ a \in {"Recreate", "RestoreState", "Attach"}
-          THEN LET match == l <= Len(T.ev) /\ T.ev[l].e = a /\ [i \in 1..Len(T.ev[l].path) |-> T.ev[l].path[i]] = p
+          THEN \* (a copy that raises leaves its partial objects unreachable: their paths cannot be logged, the order is not compared)
+               LET match == T.st # "ok" \/ (l <= Len(T.ev) /\ T.ev[l].e = a /\ [i \in 1..Len(T.ev[l].path) |-> T.ev[l].path[i]] = p)
                IN /\ l' = l + 1
                   /\ verdict' = IF verdict = "ok" /\ ~match THEN "order" ELSE verdict
                   /\ vstep' = IF verdict = "ok" /\ ~match THEN l ELSE vstep
